@@ -594,3 +594,45 @@ fn c13_div_exact16() {
     arith16(Op::Div);
 }
 
+
+/// AND / OR with LITERAL operands (any construction-time simplification of
+/// the logical operators must keep the documented result: always 0 or 1
+/// under the documented truthiness), in every literal/column combination.
+fn and_or_literal(ka: usize, kb: usize) {
+    let a = value_of_kind(ka);
+    let b = value_of_kind(kb);
+    let row = row_ab(a.clone(), b.clone());
+    let want_and = truthy(&a) && truthy(&b);
+    let want_or = truthy(&a) || truthy(&b);
+    // literal AND/OR column
+    let e1 = lit(&a).and(Expr::col("B")).eval(&row);
+    let e2 = lit(&a).or(Expr::col("B")).eval(&row);
+    // column AND/OR literal
+    let e3 = Expr::col("A").and(lit(&b)).eval(&row);
+    let e4 = Expr::col("A").or(lit(&b)).eval(&row);
+    // literal AND/OR literal
+    let e5 = lit(&a).and(lit(&b)).eval(&row);
+    let e6 = lit(&a).or(lit(&b)).eval(&row);
+    assert!(is_bool(&e1, want_and) && is_bool(&e3, want_and) && is_bool(&e5, want_and), "C13: AND with a literal operand must give the documented 0/1 result");
+    assert!(is_bool(&e2, want_or) && is_bool(&e4, want_or) && is_bool(&e6, want_or), "C13: OR with a literal operand must give the documented 0/1 result");
+    std::mem::forget(row);
+}
+
+#[kani::proof]
+#[kani::unwind(4)]
+fn c13_and_or_literal_a() {
+    and_or_literal(1, 1);
+    and_or_literal(1, 3);
+    and_or_literal(0, 1);
+    kani::cover!(true);
+}
+
+#[kani::proof]
+#[kani::unwind(4)]
+fn c13_and_or_literal_b() {
+    and_or_literal(3, 1);
+    and_or_literal(2, 4);
+    and_or_literal(1, 0);
+    kani::cover!(true);
+}
+
